@@ -18,6 +18,7 @@ SCHEMA = f'''<xs:schema {XS} targetNamespace="urn:t" xmlns:t="urn:t" elementForm
        <xs:element name="b" minOccurs="0"><xs:complexType><xs:sequence><xs:element name="v" type="xs:date"/></xs:sequence></xs:complexType></xs:element>
      </xs:sequence></xs:complexType><xs:unique name="UV"><xs:selector xpath="t:v"/><xs:field xpath="."/></xs:unique></xs:element>
    <xs:element ref="t:g" minOccurs="0" maxOccurs="unbounded"/>
+   <xs:sequence minOccurs="0" maxOccurs="unbounded"><xs:element name="d" type="xs:date"/><xs:element name="n" type="xs:int"/></xs:sequence>
   </xs:sequence></xs:complexType></xs:element>
  <xs:element name="g" type="xs:token"/><xs:element name="g2" type="xs:NCName" substitutionGroup="t:g"/>
 </xs:schema>'''
@@ -33,6 +34,8 @@ def gen(rng):
         w = f'<t:w>{rng.choice(["p:x", "t:y", "z"])}</t:w>' if rng.random() < .5 else ''
         parts.append(f'<t:a{rng.choice(["", "", " xmlns:p=" + chr(34) + "urn:p" + chr(34)])}>{vs}{w}{b}</t:a>')
     for i in range(rng.randrange(0, 3)): parts.append(rng.choice(['<t:g>tok</t:g>', '<t:g2>nc</t:g2>', '<t:g2>1bad</t:g2>']))
+    # declarations with maxOccurs = 1 that repeat through their enclosing group: d[2], n[3] name real nodes
+    for i in range(rng.randrange(0, 4)): parts.append(f'<t:d>{rng.choice(["2024-01-01", "2024-13-01"])}</t:d><t:n>{rng.choice(["1", "x"])}</t:n>')
     return '<t:r xmlns:t="urn:t">' + ''.join(parts) + '</t:r>'
 
 
